@@ -598,6 +598,20 @@ DEFOP(minify) {
     SpellOpts so; so.ws = 2;
     std::string text = serialize_value(v, sr, so);
     mv_free(v);
+    {   // comments between tokens (cJSON_Minify strips // and /* */ comments): inserted at whitespace outside strings
+        std::string t2; bool in_str = false;
+        for (size_t i = 0; i < text.size(); i++) {
+            char ch = text[i];
+            if (in_str) { if (ch == '\\' && i + 1 < text.size()) { t2 += ch; t2 += text[++i]; continue; } if (ch == '"') in_str = false; }
+            else if (ch == '"') in_str = true;
+            else if ((ch == ' ' || ch == '\n' || ch == '\t') && sr.chance(1, 6)) {
+                if (sr.chance(1, 2)) t2 += "// c \" [1, /* x\n"; else t2 += "/* m \" * / // */";
+                w.stats.probes["minify_comment_inserted"]++;
+            }
+            t2 += ch;
+        }
+        text.swap(t2);
+    }
     std::vector<char> buf(text.begin(), text.end());
     buf.push_back('\0');
     cJSON_Minify(buf.data());
